@@ -1,130 +1,156 @@
 /* C10 -- key allocator under interference (rely/guarantee, DESIGN §3.3 / §4 C10).
  * Functions under contract (real bodies): myth_tls_key_allocator_alloc, myth_tls_key_allocator_dealloc.
  *
- * Shared state: KA.free (Treiber stack head) and the cells KA.keys[].  Ghost view:
- *   g_hi  index of the head cell (-1: empty), KA.free == cell(g_hi)
- *   g_si  index of the head's successor in the stack (-1: none), KA.keys[g_hi].next == cell(g_si)
- *   g_mine index of the cell I own exclusively (-1: none): a cell I popped, or the live key I am deleting
- *   g_w   witness cell with agreed copies g_w_next / g_w_d: a cell I do not own must not be written by me
- *   g_poplock_mine: I hold the lock that serialises pops (0 on a tree without such a lock)
- * Environment step (other threads, any number of complete or partial alloc/dealloc): may rewrite the head, and
- * every cell except mine, arbitrarily within the stack discipline.  While I hold the pop lock the environment
- * can only push: "my candidate cell g_ke is the head" can then only go from true to false, and while it stays
- * true its successor is unchanged.
+ * Shared state: KA.free (Treiber stack head) and the cells KA.keys[].  The environment (other threads running any
+ * number of complete or partial alloc/dealloc) is a stub WITH A BODY over four named cells C0..C3 (every pointer is
+ * assigned constructively): before every read of shared state and before every CAS of the code under proof it may
+ * rebuild the stack arbitrarily from the cells I do not own, and mark cells live (popped by somebody else).
+ * While I hold a lock that serialises pops (none on the pinned tree: g_poplock_mine == 0) it may only push.
+ * Ghosts: g_head/g_succ the agreed head and its successor; g_mine the cell I own (popped by me / the live key I am
+ * deleting); shadow copies of every cell I do not own (a cell I do not own must not be written by me).
  * Guarantee on my CAS on KA.free:
- *   pop  c -> n : c == head, n == the head's successor AT THE CAS INSTANT (not a stale one: ABA)
- *   push o -> c : c is the cell I own and c.next == o at the CAS instant
+ *   pop  c -> n : n == the head's successor AT THE CAS INSTANT (not a stale one: ABA)
+ *   push o -> c : c is the cell I own and c->next == o at the CAS instant
  */
 #include "verif_common.h"
 #include "myth_tls.h"
 
 extern myth_tls_key_allocator_t KA;
-int g_hi, g_si, g_mine, g_w, g_ke, g_poplock_mine;
-myth_tls_key_entry_t * g_w_next; myth_tls_destructor_fun_t g_w_d;
-int g_pops, g_pushes, g_popped;
-
-#define NKEYS myth_tls_n_keys
-#define CELL(i) ((i) < 0 ? (myth_tls_key_entry_t *)0 : &KA.keys[i])
+#define NC 4
+myth_tls_key_entry_t * C[NC];
+myth_tls_key_entry_t * g_head, * g_succ, * g_mine, * g_popped;
+myth_tls_key_entry_t * g_sh_next[NC]; myth_tls_destructor_fun_t g_sh_d[NC];
+int g_poplock_mine, g_pops, g_pushes, g_env_budget;   /* g_env_budget: interfering environment steps left (bounded stand-in) */
 #define LIVE ((myth_tls_key_entry_t *)-1)
-#define RANGE(i) (-1 <= (i) && (i) < NKEYS)
-#define VIEW_OK (RANGE(g_hi) && RANGE(g_si) && RANGE(g_mine) && 0 <= g_w && g_w < NKEYS && RANGE(g_ke) && \
-                 KA.free == CELL(g_hi) && (g_hi >= 0 ==> (KA.keys[g_hi].next == CELL(g_si) && g_si != g_hi && g_hi != g_mine)) && \
-                 (g_hi < 0 ==> g_si == -1) && (g_si < 0 || g_si != g_mine))
-#define W_AGREE (g_w == g_mine || (KA.keys[g_w].next == g_w_next && KA.keys[g_w].destructor == g_w_d))
+static void D1(void * v) { }
+static void D9(void * v) { }
 
-void myth_verif_env_step(void)
-  __CPROVER_requires(VIEW_OK)
-  __CPROVER_requires(W_AGREE && "a cell I do not own was written by me (or the view of the stack is stale)")
-  __CPROVER_assigns(__CPROVER_object_whole(&KA), g_hi, g_si, g_w_next, g_w_d)
-  __CPROVER_ensures(VIEW_OK && W_AGREE)
-  /* my own cell is untouched by others */
-  __CPROVER_ensures(g_mine < 0 || (KA.keys[g_mine].next == __CPROVER_old(KA.keys[g_mine].next) &&
-                                   KA.keys[g_mine].destructor == __CPROVER_old(KA.keys[g_mine].destructor)))
-  /* pops serialised by a lock I hold: the others can only push */
-  __CPROVER_ensures(g_poplock_mine ==> ((g_hi == g_ke && g_ke >= 0) ==> (__CPROVER_old(g_hi) == g_ke && g_si == __CPROVER_old(g_si))));
+static void ka_agree(void) {          /* re-read the shared state into the ghosts */
+  int i;
+  g_head = KA.free; g_succ = g_head ? g_head->next : 0;
+  for (i = 0; i < NC; i++) { g_sh_next[i] = C[i]->next; g_sh_d[i] = C[i]->destructor; }
+}
+static myth_tls_key_entry_t * pickc(int k) { return k == 0 ? C[0] : k == 1 ? C[1] : k == 2 ? C[2] : C[3]; }
+
+void ka_env(void) {
+  int i;
+  __CPROVER_assert(KA.free == g_head, "key allocator: no unannounced (non-atomic) write to the free-list head");
+  for (i = 0; i < NC; i++)
+    if (C[i] != g_mine)
+      __CPROVER_assert(C[i]->next == g_sh_next[i] && C[i]->destructor == g_sh_d[i],
+                       "key allocator: a cell the caller does not own (it is on the free list or belongs to another thread) is never written");
+  if (g_env_budget <= 0) { ka_agree(); return; }
+  if (g_poplock_mine) {
+    g_env_budget--;
+    /* pops are serialised by a lock I hold: the others can only push cells they own */
+    int r;
+    for (r = 0; r < 2; r++) {
+      int k = nondet_int(); __CPROVER_assume(0 <= k && k < NC);
+      myth_tls_key_entry_t * x = pickc(k);
+      if (nondet_bool() && x != g_mine && x->next == LIVE) { x->next = KA.free; KA.free = x; }
+    }
+  } else if (nondet_bool()) {
+    g_env_budget--;
+    /* arbitrary pops and pushes by the others: any stack over the cells I do not own */
+    for (i = 0; i < NC; i++) {
+      myth_tls_key_entry_t * c = pickc(i);
+      if (c == g_mine) continue;
+      int ch = nondet_int(); __CPROVER_assume(-2 <= ch && ch < NC);
+      myth_tls_key_entry_t * nx = ch == -2 ? LIVE : ch == -1 ? 0 : pickc(ch);
+      __CPROVER_assume(nx != c && nx != g_mine);
+      c->next = nx;
+      if (nx == LIVE) c->destructor = nondet_bool() ? D9 : 0;       /* allocated by somebody else */
+    }
+    { int h = nondet_int(); __CPROVER_assume(-1 <= h && h < NC);
+      myth_tls_key_entry_t * nh = h < 0 ? 0 : pickc(h);
+      __CPROVER_assume(nh == 0 || (nh != g_mine && nh->next != LIVE));
+      KA.free = nh; }
+  }
+  ka_agree();
+}
 
 static inline _Bool myth_verif_cas_ptr(myth_tls_key_entry_t * volatile * p, myth_tls_key_entry_t * o, myth_tls_key_entry_t * n) {
   __CPROVER_assert(p == &KA.free, "key allocator: the only CAS target is the free-list head");
-  myth_verif_env_step();
+  ka_env();
   _Bool r = __sync_bool_compare_and_swap(p, o, n);
   if (r) {
-    if (g_mine < 0) {                       /* pop */
-      __CPROVER_assert(o != 0 && o == CELL(g_hi), "GUARANTEE key_alloc: pop removes the current head");
-      __CPROVER_assert(n == CELL(g_si), "GUARANTEE key_alloc: successor stored by pop CAS is the head's successor at the CAS instant (ABA)");
-      g_mine = g_hi; g_popped = g_hi; g_hi = g_si;
-      g_si = nondet_int();                  /* the new head's successor: whatever the stack says */
-      __CPROVER_assume(RANGE(g_si) && (g_hi < 0 ? g_si == -1 : (KA.keys[g_hi].next == CELL(g_si) && g_si != g_hi)) && (g_si < 0 || g_si != g_mine));
-      g_pops++;
+    if (g_mine == 0) {                      /* pop */
+      __CPROVER_assert(o != 0, "GUARANTEE key_alloc: pop removes an existing head");
+      __CPROVER_assert(n == g_succ, "GUARANTEE key_alloc: successor stored by pop CAS is the head's successor at the CAS instant (ABA)");
+      g_mine = o; g_popped = o; g_pops++;
     } else {                                /* push */
-      __CPROVER_assert(n == CELL(g_mine), "GUARANTEE key_alloc: push publishes the cell the caller owns");
-      __CPROVER_assert(KA.keys[g_mine].next == o, "GUARANTEE key_alloc: the pushed cell links to the head it replaces, at the CAS instant");
-      g_si = g_hi; g_hi = g_mine; g_mine = -1;
-      g_pushes++;
+      __CPROVER_assert(n == g_mine, "GUARANTEE key_alloc: push publishes the cell the caller owns");
+      __CPROVER_assert(g_mine->next == o, "GUARANTEE key_alloc: the pushed cell links to the head it replaces, at the CAS instant");
+      g_mine = 0; g_pushes++;
     }
-    if (g_w != g_mine) { g_w_next = KA.keys[g_w].next; g_w_d = KA.keys[g_w].destructor; }
+    ka_agree();
   }
   return r;
 }
 #define __sync_bool_compare_and_swap(p,o,n) myth_verif_cas_ptr((myth_tls_key_entry_t * volatile *)(p), (myth_tls_key_entry_t *)(o), (myth_tls_key_entry_t *)(n))
 /* R4 read hook: an environment step precedes every read of shared allocator state by the code under proof */
-static inline void myth_verif_rd(volatile void * p) {
-  if (__CPROVER_same_object((void *)p, &KA)) {
-    myth_verif_env_step();
-    if ((void *)p == (void *)&KA.free) g_ke = g_hi;      /* the candidate the code is about to work with */
-  }
-}
+static inline void myth_verif_rd(volatile void * p) { if (__CPROVER_same_object((void *)p, &KA)) ka_env(); }
 
 #include "myth_tls_func.h"
 #undef __sync_bool_compare_and_swap
 
-myth_tls_key_allocator_t KA;
-void (*keep_env)(void) = myth_verif_env_step;
-static void D1(void * v) { }
-
-static void setup(void) {
-  __CPROVER_havoc_object(&KA);
-  g_hi = nondet_int(); g_si = nondet_int(); g_w = nondet_int(); g_ke = -1;
-  g_pops = g_pushes = 0; g_popped = -1;
+/* the lock that serialises pops (if the tree has one): taking it is an interference point; while it is held the
+   environment can only push */
+int verif_poplock_lock(myth_spinlock_t * l) {
+  __CPROVER_assert(l == &KA.pop_lock && !g_poplock_mine, "key allocator: the only lock taken is the allocator's pop lock, not re-entered");
+  ka_env();
+  g_poplock_mine = 1;
+  return 0;
+}
+int verif_poplock_unlock(myth_spinlock_t * l) {
+  __CPROVER_assert(l == &KA.pop_lock && g_poplock_mine, "key allocator: releases the pop lock it holds");
+  g_poplock_mine = 0;
+  return 0;
 }
 
-/* spin lock that serialises pops, if the tree has one (none on the pinned tree): contract-only hooks */
+myth_tls_key_allocator_t KA;
+
+static void setup(int mine_cell) {
+  int i;
+  C[0] = &KA.keys[0]; C[1] = &KA.keys[1]; C[2] = &KA.keys[myth_tls_n_keys / 2]; C[3] = &KA.keys[myth_tls_n_keys - 1];
+  g_mine = mine_cell >= 0 ? pickc(mine_cell) : 0;
+  for (i = 0; i < NC; i++) {
+    myth_tls_key_entry_t * c = pickc(i);
+    int ch = nondet_int(); __CPROVER_assume(-2 <= ch && ch < NC);
+    myth_tls_key_entry_t * nx = ch == -2 ? LIVE : ch == -1 ? 0 : pickc(ch);
+    __CPROVER_assume(nx != c && (g_mine == 0 || nx != g_mine));
+    c->next = (c == g_mine) ? LIVE : nx;
+    c->destructor = nondet_bool() ? D9 : 0;
+  }
+  { int h = nondet_int(); __CPROVER_assume(-1 <= h && h < NC);
+    myth_tls_key_entry_t * nh = h < 0 ? 0 : pickc(h);
+    __CPROVER_assume(nh == 0 || (nh != g_mine && nh->next != LIVE));
+    KA.free = nh; }
+  g_pops = g_pushes = 0; g_popped = 0; g_poplock_mine = 0; g_env_budget = 2;
+  ka_agree();
+}
+
 void h_alloc(void) {
-  setup();
-  g_mine = -1; g_poplock_mine = 0;
-  __CPROVER_assume(VIEW_OK);
-  g_w_next = KA.keys[g_w].next; g_w_d = KA.keys[g_w].destructor;
+  setup(-1);
   myth_tls_destructor_fun_t d = nondet_bool() ? D1 : 0;
   int k = myth_tls_key_allocator_alloc(&KA, d);
-  __CPROVER_assert(k == -1 || (0 <= k && k < NKEYS), "alloc: -1 or a key in [0,1024)");
+  __CPROVER_assert(k == -1 || (0 <= k && k < myth_tls_n_keys), "alloc: -1 or a key in range");
   __CPROVER_assert((k >= 0) == (g_pops == 1) && g_pushes == 0, "alloc: exactly one pop on success, none on failure, never a push");
-  __CPROVER_assert(k < 0 || (k == g_popped && g_mine == k), "alloc: returns the cell it popped (now owned exclusively by the caller)");
+  __CPROVER_assert(k < 0 || (&KA.keys[k] == g_popped && g_mine == g_popped), "alloc: returns the cell it popped (owned exclusively by the caller from then on)");
   __CPROVER_assert(k < 0 || (KA.keys[k].next == LIVE && KA.keys[k].destructor == d), "alloc: key marked live, destructor recorded");
-  __CPROVER_assert(VIEW_OK && W_AGREE, "alloc: no unannounced write to the list head or to a cell the caller does not own");
+  __CPROVER_assert(!g_poplock_mine, "alloc: the pop lock is released on every return path");
+  ka_env();       /* final agreement check: no stray write */
   VERIF_CANARY();
 }
 
 void h_dealloc(void) {
-  setup();
-  int key = nondet_int();
-  _Bool valid = 0 <= key && key < NKEYS;
-  /* the caller holds the (live) key it deletes: nobody else touches that cell */
-  g_mine = (valid && KA.keys[valid ? key : 0].next == LIVE) ? key : -1;
-  g_poplock_mine = 0;
-  __CPROVER_assume(VIEW_OK);
-  g_w_next = KA.keys[g_w].next; g_w_d = KA.keys[g_w].destructor;
-  _Bool live = g_mine >= 0;
-  myth_tls_destructor_fun_t d0 = KA.keys[valid ? key : 0].destructor;
-  /* a key index that is valid but not live belongs to nobody: the environment may change it; the only claim is rejection */
-  __CPROVER_assume(live || !valid || g_w != key);
+  int m = nondet_int(); __CPROVER_assume(0 <= m && m < NC);
+  setup(m);                                  /* the caller deletes a live key it holds: nobody else touches that cell */
+  int key = (int)(g_mine - KA.keys);
+  myth_tls_destructor_fun_t d0 = g_mine->destructor;
   myth_tls_destructor_fun_t r = myth_tls_key_allocator_dealloc(&KA, key);
-  if (live) {
-    __CPROVER_assert(r == d0, "dealloc: returns the destructor of the deleted key");
-    __CPROVER_assert(g_pushes == 1 && g_pops == 0 && g_mine == -1, "dealloc: exactly one push of the caller's cell, never a pop");
-  } else if (!valid) {
-    __CPROVER_assert(r == (myth_tls_destructor_fun_t)-1 && g_pushes == 0 && g_pops == 0, "dealloc: out-of-range index rejected, nothing pushed");
-  } else {
-    __CPROVER_assert(g_pops == 0, "dealloc: never pops");
-  }
-  __CPROVER_assert(VIEW_OK && W_AGREE, "dealloc: no unannounced write to the list head or to a cell the caller does not own");
+  __CPROVER_assert(r == d0, "dealloc: returns the destructor of the deleted key");
+  __CPROVER_assert(g_pushes == 1 && g_pops == 0 && g_mine == 0, "dealloc: exactly one push of the caller's cell, never a pop");
+  ka_env();
   VERIF_CANARY();
 }
